@@ -20,6 +20,18 @@ CLAIMED = {
    text="Machine-checked proof over a state-machine model of the ExpressionParser object in which token lists are heap objects (so aliasing between the cache and lists handed to clients is visible): an invariant (every cached list object holds exactly the tokens of its text and is never handed out; every cached tree is the parse of its text) holds initially and is preserved by every operation; hence after ANY sequence of parse/tokenize/clear_cache calls and client pops/overwrites/clears of handed lists, parse(s) and tokenize(s) return what a fresh parser returns, and every list handed out is a new object.",
    note="Trusted: Coq kernel; theories/ParserObj.v as model of parser.py:123-172 (tied by the `history` correspondence suite); clients mutating Token OBJECTS or cached TREES are outside the model (the property speaks of lists).",
    design="4 C12", technique="Coq proof (invariant by induction over operation sequences) + differential correspondence on call histories"),
+ "C14": dict(
+   text="Machine-checked proof over the model of tree.py's three visit methods on trees where any node may lack either child, for an ARBITRARY stateful visitor that may return STOP: each traversal equals running the visitor over the defining order (with true depths) until the first STOP; the callbacks made are exactly the prefix up to and including the stop node; every node occurs exactly once in each order; to_list, find_id (first in in-order) and find_type (in-order filter) agree with the orders. Unbounded in tree size and shape. The parent-pointer queries (root, root-side, side, sibling, children) are checked on the real nodes of every shape up to 7 nodes (quick) / 9 nodes (thorough) by the suite.",
+   note="Trusted: Coq kernel; extraction + driver; the `traverse` correspondence (callback logs of the implementation vs the extracted model on ALL shapes up to the bound x every stop position). Parent-pointer look-ups are audited by the harness, not proved.",
+   design="4 C14", technique="Coq proof by structural induction (visitor semantics) + exhaustive-shape differential correspondence"),
+ "C15": dict(
+   text="Machine-checked proof that rotation as a function on tree shapes (rotate_tree: the node at a path moves above its parent, inner child re-attached) preserves the in-order sequence and the size for every tree and every node, that rotating the root is the identity, and of the two local shapes. The pointer-level claims (parent/child links mutually consistent, grandparent now points at the rotated node) are audited on the real nodes: after node.rotate() the suite reads the whole heap back, checks every link and compares the shape with rotate_tree, for ALL shapes up to 7/9 nodes x every node.",
+   note="Trusted: Coq kernel; extraction + driver; the `rotate` correspondence with its link audit. The seven pointer writes of BinaryTreeNode.rotate are not yet proved against rotate_tree at heap level (planned: proofs/HeapRotate.v).",
+   design="4 C15", technique="Coq proof (rotation on shapes preserves in-order) + exhaustive-shape differential correspondence with heap audit"),
+ "C18": dict(
+   text="Machine-checked proof over a model of TreeLayout that threads the per-node scratch state (offset, thread) explicitly, so repeated calls on the same nodes are expressible. Unbounded: every node's level is its depth (y = depth x unit) and children are placed symmetrically around their parent. Bounded, by evaluation over enumerations PROVED complete (the property's own quantifier is bounded): every full binary tree with at most 13 nodes is laid out with children strictly on their sides, parents centred, each level left-to-right at least one unit apart, repeatably and mirror-symmetrically; every shape with at most 8 nodes is laid out identically by three successive calls and its reported bounds are the bounding box. Known findings exhibited as theorems: L2 (one-child nodes) and L3 (full trees from 15 nodes on).",
+   note="Trusted: Coq kernel (vm_compute for the enumerations); extraction + driver; the `layout` correspondence (coordinates and bounds of 3 repeated calls compared exactly on all shapes up to 7/9 nodes, full trees up to 13/17 nodes, random shapes up to 80 nodes). Beyond the stated bounds only the differential check speaks.",
+   design="4 C18", technique="Coq proof: structural lemmas + reflection over complete enumerations (vm_compute) + differential correspondence"),
 }
 WIP = "model and theorems not built yet in this round (work in progress; planned, see DESIGN.md section 4)"
 def main():
